@@ -188,6 +188,24 @@ def r4_writers_place_blocks(ctx: Ctx) -> None:
     ctx.check(body == [f"self.file.seek({sw.params()[2]})", f"self.file.write({sw.params()[1]})"], "SFCWriter.write_block", f"seek to the block's offset, then write the block; found {body}")
 
 
+def r5_mapping_laws(ctx: Ctx) -> None:
+    """each byte goes to the offset the active mapping assigns, code past a bank end continues in the next bank's window
+    (the C04.R1 / R2 / R5 obligations: built-in layouts, bank lookup construction, offset formulas and address advance)"""
+    from .c04 import r1_builtin_maps, r2_mirror_construction, r5_formula_normal_form
+
+    r1_builtin_maps(ctx)
+    r2_mirror_construction(ctx)
+    r5_formula_normal_form(ctx)
+
+
+def r6_layout_agreement(ctx: Ctx) -> None:
+    """bytes sit at the offset of the address they were assembled for only if every statement advances the address by what it emits
+    (the C02.R1 obligation)"""
+    from .c02 import r1_per_class_length_agreement
+
+    r1_per_class_length_agreement(ctx)
+
+
 def rb_binding_agreement(ctx: Ctx) -> None:
     from ..ownership import binding_agreement
 
@@ -201,4 +219,4 @@ def rm_no_process_lifetime_results(ctx: Ctx) -> None:
     state_rule(ctx)
 
 
-RULES = [r1_who_may_call, r2_accumulate_then_flush, r3_position_nodes, r4_writers_place_blocks, rb_binding_agreement, rm_no_process_lifetime_results]
+RULES = [r1_who_may_call, r2_accumulate_then_flush, r3_position_nodes, r4_writers_place_blocks, r5_mapping_laws, r6_layout_agreement, rb_binding_agreement, rm_no_process_lifetime_results]
